@@ -21,10 +21,20 @@ def tableF (table : List (List Nat × List Nat)) (elem : List (Nat × Nat)) (xs 
       | some ys => ys
       | none => [poison]
 
-def demOf (name : String) : List Nat → Demand → Demand :=
+/-- `islice(items, n)`: never pulls more than `n` items, sees the end only when there are fewer -/
+def prefixDem (n : Nat) (u : List Nat) (d : Demand) : Demand :=
+  let cap (k : Nat) : Demand := if n = 0 then .none else if u.length < k then .all else .pull (min k n)
+  match d with
+  | .none => .none
+  | .pull k => if n ≤ k then cap n else .pull k
+  | .all => if u.length < n then .all else cap n
+
+def demOf (name : String) (n : Nat) : List Nat → Demand → Demand :=
   match name with
   | "eager" => fun _ d => if d.isNone then .none else .all
   | "calltime" => fun _ _ => .all
+  | "prefix" => prefixDem n
+  | "prefixcall" => fun u _ => prefixDem n u .all      -- `list(islice(items,n))` when read() is called
   | _ => fun _ d => d
 
 def parseTable (j : Json) : Except String (List (List Nat × List Nat)) := do
@@ -41,7 +51,8 @@ def parsePure (j : Json) : Except String PureSt := do
     | _ => throw "elem entry must be [in,out]")
   let dem ← str (fieldD j "dem" (Json.str "lazy"))
   let par ← natList (fieldD j "par" (Json.arr #[]))
-  pure { f := tableF table elem, dem := demOf dem, par := par }
+  let n ← nat (fieldD j "n" (Json.num 0))
+  pure { f := tableF table elem, dem := demOf dem n, par := par }
 
 def parseVariant (s : String) : Variant := if s == "asis" then .asis else .fixed
 
